@@ -45,6 +45,21 @@ def prepare(tier):
   probes.install_impact()
 
 
+def degenerate_pair_exists(truth, admitted):
+  """True when some size-admissible (T, C) pair - feasible or not - has constant or perfectly correlated series: the
+  search computes the required impact of a pair before its budget test, so such a pair makes it raise ValueError."""
+  import numpy as np
+  pairs, amb = sl.enumerate_assignments(truth, admitted)
+  for T, C in pairs + amb:
+    x, y = truth.series(C), truth.series(T)
+    if np.ptp(x) == 0 or np.ptp(y) == 0:
+      return True
+    c = np.corrcoef(x, y)[0, 1]
+    if not (abs(c) < 1 - 1e-12):
+      return True
+  return False
+
+
 def run_case(spec):
   r, g = util.rngs(PROP, spec['seed'], spec['idx'])
   tier = spec['tier']
@@ -68,7 +83,7 @@ def run_case(spec):
       # a ValueError "rejects the input"; that is only coherent with C03 when the oracle cannot score the design
       # space either (e.g. perfectly correlated twin series) or nothing must be returned
       bf = util.call(sl.brute_force, truth, rec['admitted'], sl.shadow_params(case))
-      if bf.ok and not bf.value.get('unscorable'):
+      if bf.ok and not bf.value.get('unscorable') and not degenerate_pair_exists(truth, rec['admitted']):
         must = [f for f in bf.value['feasible'] if not f['omittable'] and not f['ambiguous'] and not sl.has_nan(f['score'])]
         cnt['raised_judged'] = 1
         if must:
